@@ -79,6 +79,42 @@ func byteRow(env *SpecEnv, b Value) (row, off, ln *Term) {
 	return nil, nil, nil
 }
 
+// constDiff decides syntactically whether hi - lo is a constant (64-bit wrap-around
+// arithmetic): both are flattened into a linear form over atoms.
+func constDiff(hi, lo *Term) (int64, bool) {
+	coef := map[int]int64{}
+	var c int64
+	var walk func(t *Term, sign int64, depth int) bool
+	walk = func(t *Term, sign int64, depth int) bool {
+		if depth > 40 {
+			return false
+		}
+		switch {
+		case t.IsConst():
+			if !t.Val.IsUint64() {
+				return false
+			}
+			c += sign * int64(t.Val.Uint64())
+		case t.Op == "bvadd":
+			return walk(t.Args[0], sign, depth+1) && walk(t.Args[1], sign, depth+1)
+		case t.Op == "bvsub":
+			return walk(t.Args[0], sign, depth+1) && walk(t.Args[1], -sign, depth+1)
+		default:
+			coef[t.id] += sign
+		}
+		return true
+	}
+	if hi.Sort.Kind != SBV || hi.Sort.W != 64 || !walk(hi, 1, 0) || !walk(lo, -1, 0) {
+		return 0, false
+	}
+	for _, v := range coef {
+		if v != 0 {
+			return 0, false
+		}
+	}
+	return c, true
+}
+
 func wsumApp(row, lo, hi *Term) *Term {
 	if row.Op == "ite" {
 		return Ite(row.Args[0], wsumApp(row.Args[1], lo, hi), wsumApp(row.Args[2], lo, hi))
@@ -107,7 +143,11 @@ func init() {
 	}
 	specAxioms["spec|oc16"] = func(app *Term) []*Term {
 		x := app.Args[0]
-		return []*Term{ULt(app, BVi(65535, 64)), Implies(ULt(x, BVi(65535, 64)), Eq(app, x))}
+		return []*Term{ULt(app, BVi(65535, 64)), Implies(ULt(x, BVi(65535, 64)), Eq(app, x)),
+			// one period above the identity range (x mod 65535 for 65535 <= x < 131070)
+			Implies(And(ULe(BVi(65535, 64), x), ULt(x, BVi(131070, 64))), Eq(app, Sub(x, BVi(65535, 64)))),
+			// quotient: x = oc16(x) + 65535 * odiv(x) (x mod / div 65535), for x below 2^48
+			Implies(ULe(x, BVi(1<<48, 64)), And(Eq(x, Add(app, Mul(BVi(65535, 64), App("spec|odiv", BVSort(64), x)))), ULe(App("spec|odiv", BVSort(64), x), BVi(1<<33, 64))))}
 	}
 	specAxioms["spec|wsum"] = func(app *Term) []*Term {
 		row, lo, hi := app.Args[0], app.Args[1], app.Args[2]
@@ -119,6 +159,18 @@ func init() {
 		last := Sub(hi, BVi(1, 64))
 		last2 := Sub(hi, BVi(2, 64))
 		small := And(SLe(n, BVi(1<<32, 64)), SLe(BVi(0, 64), lo), SLe(lo, BVi(1<<42, 64)))
+		// a range of constant small length is the explicit sum of its words (complete definition
+		// in one step; reads through stores at syntactically different offsets fold away)
+		if k, ok := constDiff(hi, lo); ok && k >= 0 && k <= 64 {
+			sum := BVi(0, 64)
+			for j := int64(0); j+1 < k; j += 2 {
+				sum = Add(sum, b16(Add(lo, BVi(j, 64))))
+			}
+			if k%2 == 1 {
+				sum = Add(sum, Shl(ZExt(Select(row, Add(lo, BVi(k-1, 64))), 64), BVi(8, 64)))
+			}
+			return []*Term{Implies(small, Eq(app, sum))}
+		}
 		var frame []*Term
 		if row.Op == "store" {
 			// the sum depends only on row[lo..hi): a store outside that range does not change it
